@@ -155,17 +155,13 @@ def validate(chk, cases):
     bad = {}
     acc = 0
     drift = 0
-    CH = 5000
-    for off in range(0, len(cases), CH):
-        path = tlc.write_cases(cases[off:off + CH])
-        res = tlc.run_tlc("TraceController", env={"CASES": path}, timeout=1800)
-        chk.add_tlc(res)
-        for t in res.tagged("BAD"):
-            bad[off + t[1] - 1] = (t[2], t[3])
-        for t in res.tagged("ACC"):
-            acc += 1
-            if t[2]:
-                drift += 1
+    out = tlc.judge_batch("TraceController", cases, chunk=2500, tags=("BAD", "ACC"), chk=chk)
+    for t in out["BAD"]:
+        bad[t[1]] = (t[2], t[3])
+    for t in out["ACC"]:
+        acc += 1
+        if t[2]:
+            drift += 1
     if acc + len(bad) != len(cases):
         raise tlc.MachineryError("trace batch: %d accepted + %d rejected != %d cases"
                                  % (acc, len(bad), len(cases)))
